@@ -421,3 +421,37 @@ func VerifC14_Finalise() {
 	}
 	verifrt.Assert(c.Find("Ingress", "ns", c14Name) != nil, "C14.finalise.stableKept")
 }
+
+// VerifC05_IngressRoundTrip: create; step; Finalise leaves the stable Ingress as it was and no canary Ingress.
+func VerifC05_IngressRoundTrip() {
+	class := "nginx"
+	r := c14Ctl(class)
+	c := &symclient.Client{}
+	c.ApplyFn = c.ApplyToStore
+	r.Client = c
+	stable, _ := c14StableIngress(1, 2)
+	stable.Annotations = c14UserAnnotations(class)
+	c.Objects = append(c.Objects, stable.DeepCopy())
+	s := c14GenStep(class, 1, 1)
+	strategy := &v1beta1.TrafficRoutingStrategy{Matches: s.matches}
+	if s.weight != nil {
+		t := fmt.Sprintf("%d%%", *s.weight)
+		strategy.Traffic = &t
+	}
+	_, err := r.EnsureRoutes(context.TODO(), strategy)
+	if err != nil {
+		return
+	}
+	modified, err := r.Finalise(context.TODO())
+	verifrt.Assert(err == nil, "C05.ingress.finalise.noError")
+	created := len(c.Writes("create", "Ingress")) == 1
+	verifrt.Assert(modified == created, "C05.ingress.finalise.modifiedIffCreated")
+	verifrt.Assert(c.Find("Ingress", "ns", c14Name+"-canary") == nil, "C05.ingress.finalise.canaryGone")
+	for _, w := range c.Log {
+		verifrt.Assert(w.Obj.GetName() != c14Name, "C05.ingress.stableNeverWritten")
+	}
+	got := c.Find("Ingress", "ns", c14Name).(*netv1.Ingress)
+	keys := []string{"kubernetes.io/ingress.class", "user/team"}
+	verifrt.Assert(c14SameMap(got.Annotations, stable.Annotations, keys), "C05.ingress.stableAnnotationsKept")
+	verifrt.Cover("C05.ingress.done")
+}
